@@ -235,6 +235,33 @@ def run(ctx):
             lib.correspond(ctx, res, "h_pass", "loader", cl2, comp_holds, exe_args=[bfp], per_chunk=300,
                            classify=lambda l, i: "code:%s:%s" % ("constraint" if l.split()[1] == "1" else "action", "fault" if i.startswith(("fault", "CRASH")) else i.split()[0]),
                            rule="Machine::Code: %d programs of %s (intact / one byte changed) and generated programs against its limits %s; status, instruction list incl. TEMP_COPYs, data, max_ref and flags must be the model's" % (len(real), bf, "/".join(lims)))
+        # glyph attributes: GlyphCache (on demand and preloading) on the Gloc/Glat of shipped fonts (version 1 and 3), intact and mutated,
+        # and on generated tables (versions 1-3, short and long offsets, irregular run-length entries) for two small base fonts
+        for bf in ("Padauk.ttf", "general.ttf", "Awami_test.ttf", "small.ttf", "grtest1gr.ttf"):
+            bfp = str(lib.REPO / "tests" / "fonts" / bf)
+            try:
+                tb = sfnt.read_tables(pathlib.Path(bfp))
+                ngg = struct.unpack(">H", tb["maxp"][4:6])[0]
+            except Exception:
+                continue
+            big = len(tb["Glat"]) > 40000
+            gl = []
+            for k in range((30 if q else 600) if big else (250 if q else 12000)):
+                if bf in ("small.ttf", "grtest1gr.ttf"):
+                    gloc, glat = passgen.build_glyph_tables(r, max(1, ngg + r.choice([0, 0, 1, 5, -1])), r.choice([0x00010000, 0x00020000, 0x00030000]),
+                                                            r.random() < 0.5, r.random() < 0.2, hostile=r.choice([0, 0.1, 0.5]))
+                    if k % 3 == 0:
+                        gloc, glat = passgen.mutate_glyph_tables(r, gloc, glat)
+                else:
+                    gloc, glat = (tb["Gloc"], tb["Glat"]) if k == 0 else passgen.mutate_glyph_tables(r, tb["Gloc"], tb["Glat"])
+                w = 4 if len(gloc) > 5 and gloc[5] & 1 else 2
+                nga = max(0, (len(gloc) - 8) // w - 1)                 # (roughly) the attributed glyphs: ask about the last ones
+                gids = [0, 1, ngg - 1, ngg, nga - 1, max(0, nga - 2), r.randrange(0, max(ngg, nga) + 2)]
+                keys = [0, 1, 2, 3, 47, 48, 49, 95, 96] + [r.randrange(0, 400) for _ in range(6)] + [65535]
+                gl.append("glyphs %d 48 %d %s %s %s %s" % (r.choice([0, 0, 2]), ngg, gloc.hex() or "-", glat.hex() or "-", ",".join(map(str, gids)), ",".join(map(str, keys))))
+            lib.correspond(ctx, res, "h_pass", "loader", gl, comp_holds, exe_args=[bfp], per_chunk=60, line_timeout=120,
+                           classify=lambda l, i: "glyphs:%s:%s" % ("preload" if l.split()[1] == "2" else "lazy", "fault" if i.startswith(("fault", "CRASH")) else i.split()[0]),
+                           rule="GlyphCache / Loader / sparse on the glyph count of %s: Gloc and Glat of the font or generated ones, intact and mutated; per queried glyph the chunks, values and 16 look-ups of its attributes and its sub-box count must be the model's (the engine's chunk width, 48 keys, is checked by the harness)" % bf)
         exe = lib.build_harness("h_seg")
         fonts, hl, meta = [], [], []
 
